@@ -17,7 +17,10 @@
 
 use crate::{
 	trait_bounds,
-	utils::{codec_crate_path, custom_mel_trait_bound, has_dumb_trait_bound, should_skip},
+	utils::{
+		codec_crate_path, custom_mel_trait_bound, get_compact_type, get_encoded_as_type,
+		has_dumb_trait_bound, should_skip,
+	},
 };
 use quote::{quote, quote_spanned};
 use syn::{parse_quote, spanned::Spanned, Data, DeriveInput, Field, Fields};
@@ -44,7 +47,7 @@ pub fn derive_max_encoded_len(input: proc_macro::TokenStream) -> proc_macro::Tok
 		None,
 		has_dumb_trait_bound(&input.attrs),
 		&crate_path,
-		false,
+		true,
 	) {
 		return e.to_compile_error().into();
 	}
@@ -84,10 +87,23 @@ fn fields_length_expr(fields: &Fields, crate_path: &syn::Path) -> proc_macro2::T
 	// `max_encoded_len` call. This way, if one field's type doesn't implement
 	// `MaxEncodedLen`, the compiler's error message will underline which field
 	// caused the issue.
+	//
+	// A field marked `compact` or `encoded_as` is not encoded as its own type, so the bound has to
+	// come from the type it is actually encoded as.
 	let expansion = fields_iter.map(|field| {
 		let ty = &field.ty;
-		quote_spanned! {
-			ty.span() => .saturating_add(<#ty as #crate_path::MaxEncodedLen>::max_encoded_len())
+		if let Some(compact) = get_compact_type(field, crate_path) {
+			quote_spanned! {
+				ty.span() => .saturating_add(<#compact as #crate_path::MaxEncodedLen>::max_encoded_len())
+			}
+		} else if let Some(encoded_as) = get_encoded_as_type(field) {
+			quote_spanned! {
+				ty.span() => .saturating_add(<#encoded_as as #crate_path::MaxEncodedLen>::max_encoded_len())
+			}
+		} else {
+			quote_spanned! {
+				ty.span() => .saturating_add(<#ty as #crate_path::MaxEncodedLen>::max_encoded_len())
+			}
 		}
 	});
 	quote! {
